@@ -126,7 +126,7 @@ def check(ctx):
     # execute_possible_mode_switch: writes current_mode exactly when has_transition returns Some(m), := m
     es = F.fn(r"ScannerImpl::execute_possible_mode_switch$")
     ctx.analysed_fn(es)
-    ex, paths = run_fn(es, F, Model())
+    ex, paths = run_fn(es, F, Model(), inline=r"ScannerImpl::has_transition$")
     rp = ret_paths(paths)
     ctx.floor("C06.c", "return paths of execute_possible_mode_switch", len(rp), 2)
     for p in rp:
